@@ -561,8 +561,8 @@ def next_statement(
 
 
 def next_psuedo_matches(state: TokenizerState) -> TokenInfo | None:
-    if state.pos == state.max or state.in_fstring():
-        return None
+    if state.pos == state.max or state.in_fstring() or state.in_colon():
+        return None  # literal text and format specs are scanned by handle_fstring_progs only
     match = state.match(PseudoToken)
     if (not match) or (not match.lastgroup):
         return None
@@ -608,6 +608,13 @@ def next_psuedo_matches(state: TokenizerState) -> TokenInfo | None:
             # at the level of the field itself a colon starts the format spec, also the one of ':=' ('{x:=^10}')
             token, end = ":", start + 1
             epos, state.pos = (state.lnum, end), end
+            depth = 0  # format specs already open in this f-string (a nested f-string counts for itself)
+            for prog in reversed(state.end_progs):
+                if isinstance(prog.mode, ModeMiddle):
+                    break
+                depth += isinstance(prog.mode, ModeInColon)
+            if depth >= 2:
+                raise TokenError("f-string: expressions nested too deeply", spos)
             state.add_prog(
                 start + 1,
                 end,
